@@ -54,4 +54,115 @@ PermittedOs(kind, cls, req) ==
   \/ cls = "hostlib" /\ kind \in {"read", "stat"}
   \/ req /\ cls \in ModuleSourceDirs /\ kind \in {"read", "stat"}
 
+
+-----------------------------------------------------------------------------
+(* "every symbol of every bundled module invoked with path-like and
+   command-like arguments": the arguments.
+
+   The symbols of the palette (the harness gives each one a program text; the
+   paths point into the canary directory):
+     F an existing file        D an existing directory   N a path that does not exist yet
+     S an existing script      R a relative path         M a new path inside a new directory
+     C a command name          L a list holding a path
+   A built-in may reach the operating system only when the path stands next to
+   a *companion* of the right kind (a callback that is handed the lines, a
+   stream, a number of bytes, a map of options, ...); the type tests of a
+   native run before it looks at the path.  So every path-like / command-like
+   argument is tried in every parameter position next to every companion:
+     K a callback (any number of parameters)   I an input stream    O an output stream
+     1 an integer     P a map from a path to a path     B an object with path members
+     T / X booleans   U an encoding name       Z NULL    E the empty string
+     J a callback that returns its first argument *)
+PathArgs      == {"F", "D", "N", "S", "R", "M"}
+CommandArgs   == {"C"}
+TargetsCore   == {"F", "D", "N", "S", "C"}
+TargetsMore   == PathArgs \cup CommandArgs
+CompanionsCore == {"K", "I", "O", "1", "P", "L", "T", "U", "Z"}
+CompanionsMore == CompanionsCore \cup {"B", "X", "E", "J"}
+Targets(more)    == IF more THEN TargetsMore ELSE TargetsCore
+Companions(more) == IF more THEN CompanionsMore ELSE CompanionsCore
+Palette(more)    == PathArgs \cup CommandArgs \cup CompanionsMore
+
+(* the tuples of the first round of this check (they carry what is known about
+   the parameter order of the OS-touching built-ins: source and destination,
+   command, argument list and working directory, file name and encoding) *)
+BaseShapes ==
+  { << >>, <<"F">>, <<"D">>, <<"N">>, <<"S">>, <<"R">>, <<"C">>, <<"M">>,
+    <<"F", "N">>, <<"F", "D">>, <<"N", "F">>, <<"D", "T">>, <<"C", "L">>, <<"F", "U">>,
+    <<"N", "U">>, <<"M", "T">>, <<"S", "N">>, <<"F", "L">>,
+    <<"C", "L", "D">>, <<"N", "U", "T">>, <<"D", "T", "T">>,
+    <<"D", "T", "T", "T">>, <<"C", "L", "D", "X", "N">> }
+
+(* one target in position i, the same companion in every other position *)
+Around(k, i, t, c) == [j \in 1..k |-> IF j = i THEN t ELSE c]
+
+(* Argument tuples for a function of n parameters: everything of the first
+   round that fits; every palette symbol alone; every target next to every
+   companion and every other path in both orders; for three and more
+   parameters every target in every position, the other positions filled with
+   one companion.  (A call with one argument too many is added by the
+   harness.) *)
+CallShapes(n, more) ==
+  LET T == Targets(more)
+      C == Companions(more) \cup PathArgs \cup CommandArgs
+  IN { s \in BaseShapes : Len(s) <= IF n = 0 THEN 1 ELSE n }
+     \cup (IF n >= 1 THEN { <<a>> : a \in Palette(more) } ELSE {})
+     \cup (IF n >= 2 THEN { <<t, c>> : t \in T, c \in C } \cup { <<c, t>> : t \in T, c \in C } ELSE {})
+     \cup UNION { { Around(k, i, t, c) : i \in 1..k, t \in T, c \in Companions(more) } : k \in 3..n }
+
+(* Every shape names at least one path-like or command-like argument, except
+   the empty call and the lone companions. *)
+ShapeHasTarget(s) == \E i \in DOMAIN s : s[i] \in PathArgs \cup CommandArgs \cup {"L"}
+
+-----------------------------------------------------------------------------
+(* "the only file access it can cause is the interpreter reading module
+   sources for `require`": the module specs.
+
+   A module spec is text; the part in front of the last `/` is a directory
+   part.  Bundled modules are looked up by file name only, so a spelling with
+   a directory part names the same bundled module (RequireSpellings), and a
+   spec whose file name is not a module must not make the interpreter open or
+   probe anything outside the module source directories, whatever stands in
+   front of it (ForeignSpecs: prefix \o traversal \o target, each a list of
+   path components the harness joins with `/`):
+     UP   enough `..` components to reach the root from any module directory
+     CAN  the components of the canary directory
+     ROOT an empty first component (the spec starts with `/`)           *)
+RequireSpellings == {"plain", "dir", "dotdot", "abs", "cwd"}
+  \* M | x/M | x/../M | /x/M | ./M
+
+SpecPrefixes ==
+  { << >>, <<"x">>, <<".">>, <<"x", ".">>, <<"x", "y", "..">>, <<"..">>, <<"x", "..">>,
+    <<"sys">>, <<"~">>, <<"x", "">> }
+SpecTraversals ==
+  { <<"UP", "CAN">>,            \* relative, up to the root and down into the canary
+    <<"ROOT", "CAN">>,          \* absolute
+    <<"..">>,                   \* the parent of the working directory (the canary)
+    << >> }                     \* the working directory itself
+SpecTargets == {"script", "script.ckl", "SCRIPT", "a.txt", "sub", "rel.txt"}
+RequireClauses == {"plain", "unqualified", "as", "import", "variable"}
+ModulePathSettings == {"none", "mods"}     \* checkerlang_module_path unset / one harness-made directory
+
+ForeignSpecs ==
+  { [prefix |-> p, trav |-> t, target |-> g, clause |-> c, modpath |-> mp] :
+      p \in SpecPrefixes, t \in SpecTraversals, g \in SpecTargets,
+      c \in RequireClauses, mp \in ModulePathSettings }
+\* an absolute traversal after a non-empty prefix is not absolute any more: kept, it is still a spec
+\* the spellings of the first round of this check (always tried)
+CoreSpecs ==
+  { s \in ForeignSpecs :
+       \/ s.prefix = << >> /\ s.modpath = "none"
+            /\ (s.clause = "plain" \/ (s.trav = <<"UP", "CAN">> /\ s.target = "script"))
+       \/ s.trav = <<"UP", "CAN">> /\ s.target = "script" /\ s.clause = "plain" }
+
+-----------------------------------------------------------------------------
+(* How a user obtains a secure-mode interpreter: the constructor
+   Interpreter(secure, legacy), or the command line front ends
+   (`python -m ckl.run`, `python -m ckl.repl`) with the options --secure and
+   --legacy.  The configuration a front end must construct: *)
+CliOptionSets == SUBSET {"secure", "legacy"}
+CliSecure(opts) == "secure" \in opts
+CliLegacy(opts) == "legacy" \in opts
+FrontEnds == {"run", "repl"}
+
 =============================================================================
